@@ -179,6 +179,61 @@ def one(ctx: Ctx, cs, pname=None, **over):
         ctx.sample({'case_seed': cs, 'profile': pname, 'text': x, 'export': y})
 
 
+def ragged(ctx: Ctx, cs):
+    """Texts that are not rectangular: one line with a cell too many, one line that lost its last cell (more lines follow).  Such a text
+    is refused or reported - or, if it does import without errors, the statement applies to it like to any other: the export has the
+    source's grid, no cell dropped."""
+    import random
+    rng = random.Random(cs ^ 0x4A6)
+    doc, pname = make_doc(cs, ['simple', 'kern_only', 'texty'][cs % 3], p_null=0.0, p_null_run=0.0, p_gcomment=0.0, p_pre_gcomment=0.0,
+                          p_post_gcomment=0.0, p_blank=0.0, measures=(1, 3))
+    lines = doc.text(0).split('\n')
+    if lines and lines[-1] == '':
+        lines = lines[:-1]
+    body = [i for i, ln in enumerate(lines) if i > 0 and i < len(lines) - 1 and not ln.startswith('!!')]
+    if len(body) < 2:
+        return
+    i = rng.choice(body)
+    cells = lines[i].split('\t')
+    mode = rng.choice(['surplus', 'surplus', 'short'])
+    if mode == 'surplus':
+        extra = rng.choice(['4c', 'la', '.', '*', '!x', '=', '8r'])
+        if lines[i].startswith('*') and not extra.startswith('*'):
+            extra = '*MM60'
+        if lines[i].startswith('=') and not extra.startswith('='):
+            extra = '='
+        if lines[i].startswith('!') and not extra.startswith('!'):
+            extra = '!x'
+        cells = cells + [extra]
+    else:
+        if len(cells) < 2:
+            return
+        cells = cells[:-1]
+    lines[i] = '\t'.join(cells)
+    x = '\n'.join(lines) + '\n'
+    ctx.ev()
+    ctx.mon('ragged_texts')
+    d, e, exc = kpx.loads(x)
+    if exc is not None:
+        ctx.mon(f'ragged_text_refused:{mode}')
+        return
+    if e:
+        ctx.mon(f'ragged_text_reported:{mode}')
+        return
+    ctx.mon(f'ragged_text_imported_without_errors:{mode}')
+    y, err = kpx.dumps(d)
+    case = {'case_seed': cs, 'text': x, 'ragged': mode, 'line': i + 1}
+    if err is not None:
+        ctx.violation('export-raises', f'default export of a text that imported without errors raised {type(err).__name__}: {err}', case)
+        return
+    want = [ln.split('\t') for ln in lines if not ln.startswith('!!') and ln != '' and not all(c in ('.', '*') for c in ln.split('\t'))]
+    got = kpx.grid(y)
+    if [len(r) for r in got] != [len(r) for r in want]:
+        j = next((k for k, (a, b) in enumerate(zip(got, want)) if len(a) != len(b)), min(len(got), len(want)))
+        ctx.violation('grid-shape', f'a text with a {mode} line ({i + 1}: {lines[i]!r}) imports without errors, but its export has not the '
+                      f'source\'s grid: line {j + 1} is {got[j] if j < len(got) else None} for {want[j] if j < len(want) else None}', case)
+
+
 def run(ctx: Ctx):
     kpx.enable_bystanders(ctx)
     ctx.rule = ('documents of the C01 generator; expected grid = source rows minus global comments, blank lines and all-null rows; '
@@ -194,6 +249,8 @@ def run(ctx: Ctx):
         one(ctx, cs)
     for cs in cases(ctx, 'c03sep', 30 if ctx.tier == 'quick' else 100):
         one(ctx, cs, 'texty', separator_text=0.3)
+    for cs in cases(ctx, 'c03ragged', 60 if ctx.tier == 'quick' else 200):
+        ragged(ctx, cs)
     if ctx.tier == 'thorough':
         for cs in cases(ctx, 'c03long', 2):
             one(ctx, cs, 'default', long_rows=1200, measures=(20, 40), p_split=0.03)
@@ -206,5 +263,9 @@ def run(ctx: Ctx):
 
 def replay(ctx, w):
     case = w.get('case', w)
+    if 'ragged' in case:
+        ragged(ctx, case['case_seed'])
+        print(case.get('text', ''))
+        return
     one(ctx, case['case_seed'], case.get('profile'), **case.get('over', {}))
     print(case.get('text', ''))
